@@ -254,7 +254,8 @@ Proof.
     try (injection H as ->; first [eapply read_cc_ok; eassumption | eapply read_command_cc_ok; eassumption
                                   | eapply read_rpn_command_ok; eassumption | eapply read_play_ok; eassumption
                                   | eapply read_def_str_ok; eassumption]);
-    injection H as <- <- <- <-; try exact I; eapply read_args_tokens_ok; eassumption.
+    injection H as <- <- <- <-; try exact I;
+    first [eapply read_args_tokens_ok; eassumption | eapply read_macro_args_ok; eassumption].
 Qed.
 Lemma read_ext_command_ok ls ttype argt tag1 tag2 s ln ot s' ln' ls' :
   read_ext_command ls ttype argt tag1 tag2 s ln = Ok (ot, s', ln', ls') -> LI ls -> LI ls'.
